@@ -405,6 +405,8 @@ def correspond(ctx):
     stream_allene_wedges(ctx)
     stream_allene_wedge_model(ctx)
     stream_dependent(ctx)
+    stream_fix_model(ctx)
+    ctx.cov['programs'] += 1   # fix_stereo vs Model/StereoFix.lean
     ctx.cov['programs'] += 3   # _chiral_morgan/__differentiation through ==/str, fix_stereo restore rounds, postprocess_molecule retry rounds
     ctx.cov['programs'] += 3   # ring_attached_cumulenes / ring linkers via chiral_*, add_wedge allene branch, _wedge_map allene orders
     ctx.cov['programs'] += 3   # add_atom_stereo, add_cis_trans_stereo, clean_stereo through the cache layer
@@ -3280,3 +3282,190 @@ def stream_dependent(ctx):
             dep_case(ctx, name, ctx.rng, 3, 10 if big else None, 1)
         else:
             dep_case(ctx, name, ctx.rng, 8, None, 4)
+
+
+# ---- K: fix_stereo against the Lean model (Model/StereoFix.lean, driver op `fx`) -----------------------------------------
+
+def _fx_units_now(mol):
+    """labels present on `mol`, as model units (kind, a, b, sign); a labelled carrier that is no unit gives kind 9"""
+    st, sa, term = mol.stereogenic_tetrahedrons, mol.stereogenic_allenes, mol._stereo_cis_trans_terminals
+    out = []
+    for n, a in mol.atoms():
+        if a.stereo is not None:
+            out.append((0 if n in st else 1 if n in sa else 9, n, 0, int(a.stereo)))
+    for n, m, b in mol.bonds():
+        if b.stereo is not None:
+            ta = term.get(n)
+            out.append((2, ta[0], ta[1], int(b.stereo)) if ta and term.get(m) == ta else (9, n, m, int(b.stereo)))
+    return sorted(out)
+
+
+def _fx_chiral(mol, labels):
+    """the three chiral_* sets of the real code when exactly `labels` are present (fresh copy, fresh caches)"""
+    c = mol.copy()
+    for _, a in c.atoms():
+        a._stereo = None
+    for *_x, b in c.bonds():
+        b._stereo = None
+    c.flush_cache()
+    for k, a, b, s in labels:
+        if k == 2:
+            i, j = c._stereo_cis_trans_centers[a]
+            c._bonds[i][j]._stereo = bool(s)
+        else:
+            c._atoms[a]._stereo = bool(s)
+    c.flush_cache()
+    return ([(0, n, 0) for n in sorted(c.chiral_tetrahedrons)] + [(1, n, 0) for n in sorted(c.chiral_allenes)] +
+            [(2, n, m) for n, m in sorted(c.chiral_cis_trans)])
+
+
+def fx_case(mol):
+    """(request line, real outcome) for one molecule whose labels are to be re-validated"""
+    st, sa, term = mol.stereogenic_tetrahedrons, mol.stereogenic_allenes, mol._stereo_cis_trans_terminals
+    atoms, bonds, pend_t, pend_a, pend_c = [], [], [], [], []
+    for n, a in mol.atoms():
+        atoms += [n, tri(a.stereo), int(n in st), int(n in sa)]
+        if a.stereo is not None:
+            if n in st:
+                pend_t.append((0, n, 0, int(a.stereo)))
+            elif n in sa:
+                pend_a.append((1, n, 0, int(a.stereo)))
+    nb = 0
+    for n, m, b in mol.bonds():
+        tn, tm = term.get(n), term.get(m)
+        bonds += [n, m, int(b), tri(b.stereo)] + list(tn or (-1, -1)) + list(tm or (-1, -1))
+        nb += 1
+        if b.stereo is not None and int(b) == 2 and tn and tm == tn:
+            pend_c.append((2, tn[0], tn[1], int(b.stereo)))
+    # the oracle table: the label sets a restore loop can ask about, answered by the real chiral_* sets
+    pending, restored, table = pend_t + pend_a + pend_c, [], []
+    for _ in range(len(pending) + 1):
+        if not pending:
+            break
+        ch = _fx_chiral(mol, restored)
+        table.append((list(restored), ch))
+        units = set(ch)
+        ok = [l for l in pending if l[:3] in units]
+        if not ok:
+            break
+        restored = restored + ok
+        pending = [l for l in pending if l[:3] not in units]
+    line = ['fx', len(atoms) // 4] + atoms + [nb] + bonds + [len(table)]
+    for ls, us in table:
+        line += [len(ls)] + [x for l in ls for x in l] + [len(us)] + [x for u in us for x in u]
+    m2 = mol.copy()
+    for (n, a), (_n, a2) in zip(mol.atoms(), m2.atoms()):
+        a2._stereo = a.stereo
+    for n, m, b in mol.bonds():
+        m2._bonds[n][m]._stereo = b.stereo
+    m2.flush_cache()
+    try:
+        m2.fix_stereo()
+        real = 'ok ' + ' '.join(':'.join(map(str, u)) for u in _fx_units_now(m2)) + \
+               f" | cache={int('_MoleculeStereo__chiral_centers' in m2.__dict__)}"
+    except Exception as e:
+        real = f'crash:{type(e).__name__}'
+    return ' '.join(map(str, line)), real
+
+
+FX_EXTRA = ['CC(F)=[C@]=C(C)Cl', 'C[C@H](O)C=[C@]=C[C@@H](C)O', 'F/C=C=C=C/Cl', 'C[C@H](O)/C=C=C=C/[C@@H](C)O', 'C[C@H](F)/C=C/[C@@H](F)C',
+            'C[C@H](O)[C@@H](O)[C@H](O)C', 'C[C@H](O)[C@H](O)[C@H](O)C', 'O[C@H]1C[C@@H](C)C1', 'C1CC[C@]2(CC[C@H]2C)C1',
+            'C/C=C/C(/C=C/C)=C/C', 'C[C@@H](Cl)C(=C=C(C)F)[C@H](C)Cl']
+
+
+def stream_fix_model(ctx):
+    """K: real `fix_stereo` vs `fixStereo` (labels afterwards, cache left behind) on label-dependent molecules, on molecules
+    with labels forced onto arbitrary atoms / bonds, and on molecules whose constitution was edited underneath the labels"""
+    from chython import smiles
+    from chython.periodictable import Element
+    st = Stream(ctx, 'fix_stereo')
+    rng = ctx.rng
+    mols = []
+    for name in dep_names():
+        spec = dep_spec(name)
+        els = [('c', c) for c in spec.centres] + [('d', d) for d in spec.dbonds]
+        masks = list(range(1 << len(els)))
+        if ctx.quick:
+            masks = rng.sample(masks, 3)
+        for mask in masks:
+            pick = [e for i, e in enumerate(els) if mask >> i & 1]
+            sp = flip_subset(spec, {x for t, x in pick if t == 'c'}, {x for t, x in pick if t == 'd'})
+            for smi, index, _nb in spellings(sp, rng, 1):
+                mols.append((smi, index, sp))
+    for spec in tetra_specs() + dbond_specs() + cage_specs()[:3]:
+        for smi, index, _nb in spellings(spec, rng, 2):
+            mols.append((smi, index, spec))
+    for smi in FX_EXTRA:
+        mols.append((smi, None, None))
+    for _ in range(20 if ctx.quick else 300):
+        spec = random_spec(rng)
+        for smi, index, _nb in spellings(spec, rng, 1):
+            mols.append((smi, index, spec))
+    for smi, index, sp in mols:
+        try:
+            base = smiles(smi)
+        except Exception:
+            continue
+        variants = [('as-read', base)]
+        # labels forced onto arbitrary carriers (what a structural change underneath leaves behind)
+        f = base.copy()
+        for n, a in f.atoms():
+            if rng.random() < 0.25:
+                a._stereo = rng.random() < 0.5
+        for n, m, b in f.bonds():
+            if rng.random() < 0.2:
+                b._stereo = rng.random() < 0.5
+        f.flush_cache()
+        variants.append(('forced-labels', f))
+        # constitution edited underneath the labels (halogen / chalcogen leaf replaced)
+        leaves = [n for n, a in base.atoms() if a.atomic_symbol in ('F', 'Cl', 'O', 'S') and len(base._bonds[n]) == 1]
+        if leaves:
+            e = base.copy()
+            for (n, a), (_n, a2) in zip(base.atoms(), e.atoms()):
+                a2._stereo = a.stereo
+            for n, m, b in base.bonds():
+                e._bonds[n][m]._stereo = b.stereo
+            n = rng.choice(leaves)
+            old = e._atoms[n]
+            new = Element.from_symbol({'F': 'Cl', 'Cl': 'F', 'O': 'S', 'S': 'O'}[old.atomic_symbol])()
+            new._implicit_hydrogens = old._implicit_hydrogens
+            e._atoms[n] = new
+            e.flush_cache()
+            e.calc_labels()
+            variants.append(('edited', e))
+        for tag, mol in variants:
+            try:
+                line, real = fx_case(mol)
+            except Exception as ex:
+                ctx.dist(f'fix_stereo-skip:{type(ex).__name__}')
+                continue
+            ctx.dist('fix_stereo:' + tag)
+            st.add(line, real, {'kind': 'fix-model', 'smiles': smi, 'variant': tag})
+    model = None
+    if st.req and ctx.build_ok:
+        # rounds are reported by the model only: strip before comparing, keep the distribution
+        out = core.run_driver('C12', st.req)
+        if len(out) != len(st.req):
+            ctx.broke('correspondence', 'fix_stereo', f'driver returned {len(out)} lines for {len(st.req)} requests')
+            return
+        bad = []
+        for q, r, mo, me in zip(st.req, st.real, out, st.meta):
+            rounds = mo.rsplit('rounds=', 1)[1] if 'rounds=' in mo else '?'
+            ctx.dist(f'fix_stereo:rounds:{rounds}')
+            mo2 = mo.rsplit(' | rounds=', 1)[0]
+            if mo2.startswith('ok'):
+                head, cache = mo2[2:].rsplit('|', 1)
+                mo2 = 'ok ' + ' '.join(sorted(head.split(), key=lambda t: tuple(map(int, t.split(':'))))) + ' |' + cache
+                mo2 = mo2.replace('ok  |', 'ok  |')
+            r2 = r
+            if ' '.join(mo2.split()) != ' '.join(r2.split()):
+                bad.append((q, r, mo, me))
+        if bad:
+            ctx.cov['disagreements_checked'] += len(bad)
+            q, r, mo, me = bad[0]
+            ctx.sample({'stream': 'fix_stereo', 'request': q[:300], 'real': r, 'model': mo, 'DISAGREE': True})
+            ctx.broke('correspondence', 'fix_stereo', f'{len(bad)} disagreements; first: real={r!r} model={mo!r} meta={me!r}')
+            _state.setdefault('disagreements', []).extend(('fix_stereo', me) for *_x, me in bad[:50])
+        else:
+            i = len(st.req) // 2
+            ctx.sample({'stream': 'fix_stereo', 'request': st.req[i][:300], 'real': st.real[i], 'model': out[i]})
